@@ -106,6 +106,12 @@ class AnsiSetting:
         if not self.valid:
             return False
 
+        # Every code must be written in plain ASCII digits (int() would also accept signs, whitespace, underscores
+        # and other Unicode digits, which a terminal does not read as a code)
+        for val in self._str.split(ansi_sep):
+            if not (val.isascii() and val.isdigit()):
+                return False
+
         codes = self.to_list()
 
         # At least 1 code must be found, and first value must not be reset
